@@ -239,6 +239,14 @@ def showOptStr : Option String → String
 def showModOut (m : ModOut) : String :=
   s!"{showOptStr m.ids.debugId}/{showOptStr m.ids.codeId}/{showOptName m.ids.debugFile}/{showOptStr m.ids.version}/{m.hexPrinted}"
 
+def showRegsOut : Option RegsOut → String
+  | none => "-"
+  | some r =>
+    s!"{r.kind.name}:" ++ Proto.joinWith "," (r.valid.map fun (n, v) => n ++ "=" ++ Proto.natToHex v) ++ "|" ++
+      Proto.joinWith "," (r.got.map fun o => match o with
+        | none => "none"
+        | some v => Proto.natToHex v) ++ s!"|{r.size}|" ++ Proto.joinWith "," r.fmt
+
 def showMore (x : More) : String :=
   Proto.joinWith " | " [
     "misc:" ++ showRes showMisc x.misc,
@@ -258,7 +266,13 @@ def showMore (x : More) : String :=
     "uids:" ++ (match x.unloaded with
       | none => "-"
       | some us => showItems id us),
-    "soft:" ++ showRes (fun n => s!"ok {n}") x.softErrors]
+    "soft:" ++ showRes (fun n => s!"ok {n}") x.softErrors,
+    "regs:" ++ (match x.regs with
+      | none => "-"
+      | some rs => showItems showRegsOut rs),
+    "xregs:" ++ (match x.excRegs with
+      | none => "-"
+      | some r => showRegsOut r)]
 
 def renderWhole (r : M (Except Err Whole)) : Option String :=
   match r.res with
